@@ -125,6 +125,7 @@ def _spawn(modname, cases, tier, seed, nworkers, timeout):
     envp["PYTHONDONTWRITEBYTECODE"] = "1"
     envp.setdefault("PYTHONHASHSEED", "0")
     envp["VERIF_TMP"] = tmp
+    envp["TMPDIR"] = tmp
     for i, sh in enumerate(shards):
         sp = os.path.join(tmp, "shard-%d.json" % i)
         op = os.path.join(tmp, "out-%d.jsonl" % i)
